@@ -1,12 +1,39 @@
 //! vreplay: runs concrete inputs against the REAL cteepbd crate (path dependency on /repo).
-//!   vreplay eval <components-file> <loc> <k_exp> <area> <lm:0|1>   -> prints key results as JSON
-use cteepbd::{cte, energy_performance, types::*, Components};
+//!
+//!   vreplay eval <components-file> <loc> <k_exp> <area> <lm:0|1>    print key results of one evaluation
+//!   vreplay check <Cxx> [seed]                                      bounded, exhaustive evaluation of the property's own
+//!                                                                   predicate over a small stated domain (JSON report)
+//! The bounded search is the stand-in / counterexample finder of DESIGN.md 2.5-2.6: it is labelled `bounded`,
+//! never counted as proof.
+use cteepbd::{cte, energy_performance, types::*, Components, Factors, UserWF};
+use serde_json::{json, Value};
 
-fn eval(comps: &str, loc: &str, k_exp: f32, area: f32, lm: bool) -> Result<serde_json::Value, String> {
+mod gen;
+mod preds;
+
+pub struct Case {
+    pub text: String,
+    pub loc: &'static str,
+    pub k_exp: f32,
+    pub area: f32,
+    pub lm: bool,
+}
+
+pub fn factors(loc: &str) -> Factors {
+    cte::wfactors_from_loc(loc, &cte::CTE_LOCWF_RITE2014, UserWF { red1: None, red2: None }, cte::CTE_USERWF).expect("regulatory factors")
+}
+
+pub fn run(c: &Case) -> Result<EnergyPerformance, String> {
+    let comps: Components = c.text.parse().map_err(|e| format!("{}", e))?;
+    let w = factors(c.loc);
+    energy_performance(&comps, &w, c.k_exp, c.area, c.lm).map_err(|e| format!("{}", e))
+}
+
+fn eval(comps: &str, loc: &str, k_exp: f32, area: f32, lm: bool) -> Result<Value, String> {
     let c: Components = comps.parse().map_err(|e| format!("{}", e))?;
-    let w = cte::wfactors_from_loc(loc, &cte::CTE_LOCWF_RITE2014, cteepbd::UserWF { red1: None, red2: None }, cte::CTE_USERWF).map_err(|e| format!("{}", e))?;
+    let w = cte::wfactors_from_loc(loc, &cte::CTE_LOCWF_RITE2014, UserWF { red1: None, red2: None }, cte::CTE_USERWF).map_err(|e| format!("{}", e))?;
     let ep = energy_performance(&c, &w, k_exp, area, lm).map_err(|e| format!("{}", e))?;
-    Ok(serde_json::json!({
+    Ok(json!({
         "a": [ep.balance.we.a.ren, ep.balance.we.a.nren, ep.balance.we.a.co2],
         "b": [ep.balance.we.b.ren, ep.balance.we.b.nren, ep.balance.we.b.co2],
         "rer": ep.rer, "rer_nrb": ep.rer_nrb, "rer_onst": ep.rer_onst,
@@ -24,6 +51,12 @@ fn main() {
         }
         return;
     }
-    eprintln!("usage: vreplay eval <file> <loc> <k_exp> <area> <lm>");
+    if a.len() >= 3 && a[1] == "check" {
+        let seed: u64 = a.get(3).and_then(|s| s.parse().ok()).unwrap_or(0);
+        let rep = preds::check(&a[2], seed);
+        println!("{}", rep);
+        return;
+    }
+    eprintln!("usage: vreplay eval <file> <loc> <k_exp> <area> <lm> | vreplay check <Cxx> [seed]");
     std::process::exit(2);
 }
